@@ -44,11 +44,13 @@ def run (ctx):
     mask_add = g.nodes_with_call(lambda c: call_name(c) == 'add' and norm(c.func.value) == 'self._masks')
     mask_dis = g.nodes_with_call(lambda c: call_name(c) in ('discard', 'remove') and norm(c.func.value) == 'self._masks')
     drops = []
+    # a local set that is built and then becomes self._ports stands for it
+    tgt = set(['self._ports']) | set(v.id for t, v, st, k in q.stores_in(f.node) if norm(t) == 'self._ports' and isinstance(v, ast.Name))
     for t, v, st, k in q.stores_in(f.node):
-      if norm(t) == 'self._ports' and v is not None and 'port_no !=' in norm(v): drops.append(q.enclosing_stmt_node(g, st))
+      if norm(t) in tgt and v is not None and 'port_no !=' in norm(v): drops.append(q.enclosing_stmt_node(g, st))
     for c in calls_in(f.node):
-      if call_name(c) in ('discard', 'remove') and norm(c.func.value) == 'self._ports': drops.append(q.enclosing_stmt_node(g, c))
-    port_add = g.nodes_with_call(lambda c: call_name(c) == 'add' and norm(c.func.value) == 'self._ports')
+      if call_name(c) in ('discard', 'remove') and norm(c.func.value) in tgt: drops.append(q.enclosing_stmt_node(g, c))
+    port_add = g.nodes_with_call(lambda c: call_name(c) == 'add' and norm(c.func.value) in tgt)
     return g, p, mask_add, mask_dis, drops, port_add
   g, p, madd, mdis, drops, padd = effects(fg)
   iv = g.interval(lambda n: n in madd)
@@ -56,7 +58,9 @@ def run (ctx):
          "self._masks.add on every path" if iv == (1, 1) else "mask count over paths %s: on some path the number is not masked, so the port reappears through the originally reported ports" % (iv,), fg, 'D1')
   if madd:
     c = [c for c in q.node_calls(madd[0]) if call_name(c) == 'add'][0]
-    ctx.ob('R-AGREE', fg, "the masked number is the deleted port's", norm(c.args[0]) == p + '.port_no', norm(c), fg, 'D1')
+    a0 = c.args[0]
+    if isinstance(a0, ast.Name) and q.single_def(fg.node, a0.id) is not None: a0 = q.single_def(fg.node, a0.id)
+    ctx.ob('R-AGREE', fg, "the masked number is the deleted port's", norm(a0) == p + '.port_no', norm(c), fg, 'D1')
   iv = g.interval(lambda n: n in drops)
   ctx.ob('R-EFFECT', fg, "a deleted port's local copy is dropped on every path", iv == (1, 1),
          "drop on every path" if iv == (1, 1) else "drop count over paths %s: a modified-then-deleted port stays visible" % (iv,), fg, 'D1')
@@ -209,9 +213,9 @@ def run (ctx):
   good = any(n in r for n in repl) and not any(n in r for n in appends)
   ctx.ob('R-DOM', isr, "with nothing pending the part starts a new sequence", good, "replaced by [part]" if good else "append reachable with an empty pending list", isr, 'D3')
   # handler only for the last part
-  r = q.reach_under(repo, mod, g, env(True, True, True, False), con)
+  r = q.reach_under_cp(repo, mod, g, env(True, True, True, False), con)
   ctx.ob('R-DOM', isr, "no aggregate event before the final part", not any(h in r for h in hcalls), "handler unreachable when more parts follow" if not any(h in r for h in hcalls) else "the aggregate handler runs for a non-final part", isr, 'D3')
-  r = q.reach_under(repo, mod, g, env(True, True, True, True), con)
+  r = q.reach_under_cp(repo, mod, g, env(True, True, True, True), con)
   ctx.ob('R-DOM', isr, "the final part triggers the aggregate event", any(h in r for h in hcalls), "handler reachable", isr, 'D3')
   iv = g.interval(lambda n: n in hcalls)
   ctx.ob('R-EFFECT', isr, "at most one aggregate event per part", iv is not None and iv[1] <= 1, "handler call count %s" % (iv,), isr, 'D3')
@@ -261,9 +265,25 @@ def run (ctx):
       fg_ = q.cfg_of(f); parts = f.params[1]
       loops = [(s_, h, a) for (s_, h, a) in fg_.loop_nodes if isinstance(s_, ast.For)]
       if kname in ('OFPST_FLOW', 'OFPST_TABLE', 'OFPST_PORT', 'OFPST_QUEUE'):
-        good = len(loops) == 1 and norm(loops[0][0].iter) == parts and any(call_name(c) == 'extend' and norm(c.args[0]).endswith('.body') for c in calls_in(loops[0][0]))
-        early = [n for n in fg_.nodes if n.kind in ('break', 'continue')] if loops else []
-        ctx.ob('R-ALL', f, "entries of all parts are concatenated in order", good and not early, "for part in parts: msg.extend(part.body)" if good and not early else "aggregation loop changed (%s)" % ([norm(l[0].iter) for l in loops]), f, 'D3')
+        # decided by evaluation: with parts whose bodies are [a, b] and [c] the list handed to the event is [a, b, c]
+        # (and [a, b] for a single part), whatever loop / comprehension / fast path builds it
+        raises = fg_.nodes_with_call(lambda c: call_name(c) in ('raiseEventNoErrors', 'raiseEvent') and len(c.args) >= 4)
+        verdicts = []; unknown_ = False
+        for sample, want in (([q.Rec(body=['a', 'b']), q.Rec(body=['c'])], ['a', 'b', 'c']), ([q.Rec(body=['a', 'b'])], ['a', 'b']), ([q.Rec(body=[]), q.Rec(body=['z'])], ['z'])):
+          for rn in raises:
+            c_ = [c for c in q.node_calls(rn) if call_name(c) in ('raiseEventNoErrors', 'raiseEvent') and len(c.args) >= 4][0]
+            vals = set()
+            for p_, e_ in q.paths_under(repo, mod, fg_, q.Env({parts: sample}), fg_.entry, [rn], None, limit=50):
+              try: v_ = q.eval_env2(repo, mod, c_.args[3], e_, None)
+              except Exception: v_ = '?'; unknown_ = True
+              if v_ is q.OPAQUE: unknown_ = True
+              vals.add(repr(v_))
+            verdicts.append(vals == {repr(want)})
+        good = bool(verdicts) and all(verdicts)
+        if not good and unknown_:
+          ctx.undecided('R-ALL', f, "entries of all parts are concatenated in order", "the aggregated list could not be evaluated on the sample parts", f, 'D3'); continue
+        ctx.ob('R-ALL', f, "entries of all parts are concatenated in order", good, "parts [a,b]+[c] -> [a,b,c]" if good else
+               "the list handed to the aggregate event is not the in-order concatenation of every part's body (evaluated on sample parts): entries are lost, duplicated or reordered", f, 'D3')
       evc = [c for c in calls_in(f.node) if call_name(c) == 'raiseEventNoErrors']
       on_con = [c for c in evc if norm(c.func.value) == f.params[0]]
       iv = fg_.interval(lambda n: any(call_name(c) == 'raiseEventNoErrors' and norm(c.func.value) == f.params[0] for c in q.node_calls(n)))
